@@ -44,14 +44,14 @@ package announce
 //@   ensures recvOK(r)
 //@   ensures-local count("call:remove") == 1
 //@   ghost key := 0
-//@   at call String#1: assert arg0 == adCid
-//@   at call String#1: after ghost key := str(result)
-//@   at call remove#1: assert str(arg1) == key && count("call:String") == 1
+//@   at call String: assert arg0 == adCid
+//@   at call String: after ghost key := str(result)
+//@   at call remove: assert str(arg1) == key && count("call:String") == 1
 
 //@ func (*Receiver).Direct
 //@   property C16 C09
 //@   requires recvOK(r) && !held(r.announceMutex) && ctx != nil
-//@   at call handleAnnounce#1: assert arg2.Cid == nextCid && arg2.PeerID == peerInfo.ID && arg2.Addrs == peerInfo.Addrs && arg3 == r.resend
+//@   at call handleAnnounce: assert arg2.Cid == nextCid && arg2.PeerID == peerInfo.ID && arg2.Addrs == peerInfo.Addrs && arg3 == r.resend
 //@   ensures recvOK(r)
 
 // Delivery: the announcement is handed to the consumer only if the check
@@ -66,13 +66,13 @@ package announce
 //@   shutdown done
 //@   ghost ok := false
 //@   ghost filtered := zero("[]multiaddr.Multiaddr")
-//@   at call announceCheck#1: after ghost ok := result == nil
-//@   at call FilterPublic#1: assert arg0 == old(amsg.Addrs)
-//@   at call FilterPublic#1: after ghost filtered := result
+//@   at call announceCheck: after ghost ok := result == nil
+//@   at call FilterPublic: assert arg0 == old(amsg.Addrs)
+//@   at call FilterPublic: after ghost filtered := result
 //@   ensures-local count("call:FilterPublic") == 1 <==> (ok && r.filterIPs)
 //@   ensures-local count("send:outChan") == 1 && r.filterIPs ==> evarg("send:outChan", 3) == sliceArr(filtered) && evarg("send:outChan", 5) == len(filtered)
-//@   at call announceCheck#1: assert arg1.Cid == amsg.Cid && arg1.PeerID == amsg.PeerID
-//@   at call republish#1: assert arg2.Cid == old(amsg.Cid) && arg2.PeerID == old(amsg.PeerID)
+//@   at call announceCheck: assert arg1.Cid == amsg.Cid && arg1.PeerID == amsg.PeerID
+//@   at call republish: assert arg2.Cid == old(amsg.Cid) && arg2.PeerID == old(amsg.PeerID)
 //@   ensures-local count("send:outChan") <= 1
 //@   ensures-local !ok ==> count("send:outChan") == 0 && count("call:republish") == 0 && count("call:FilterPublic") == 0
 //@   ensures-local count("call:republish") == 1 <==> (ok && resend)
@@ -87,7 +87,7 @@ package announce
 //@   modifies state(r.announceCache)
 //@   ensures recvOK(r)
 //@   ghost allowed := true
-//@   at call allowPeer#1: after ghost allowed := result
+//@   at call allowPeer: after ghost allowed := result
 //@   ensures-local !allowed ==> result != nil && count("call:update") == 0 && count("lock:announceMutex") == 0
 //@   ensures-local allowed && old(r.closed) ==> result == ErrClosed && count("call:update") == 0
 //@   ensures-local result == nil ==> count("call:update") == 1
@@ -98,9 +98,9 @@ package announce
 //@   ensures old(r.closed) ==> result != nil
 // the duplicate filter is keyed by the CID's string form - the same key UncacheCid removes
 //@   ghost key := 0
-//@   at call String#1: assert arg0 == amsg.Cid
-//@   at call String#1: after ghost key := str(result)
-//@   at call update#1: assert str(arg1) == key && count("call:String") == 1
+//@   at call String: assert arg0 == amsg.Cid
+//@   at call String: after ghost key := str(result)
+//@   at call update: assert str(arg1) == key && count("call:String") == 1
 
 // Republication (C09): the message sent on carries the announced CID, the announced addresses and, as
 // its original-peer field, the publisher of the announcement; nothing of the receiver changes.
@@ -109,12 +109,12 @@ package announce
 //@   requires r != nil && r.sender != nil && r.sender.topic != nil && ctx != nil
 //@   readonly
 //@   ghost orig := 0
-//@   at call String#1: assert arg0 == amsg.PeerID
-//@   at call String#1: after ghost orig := str(result)
-//@   at call SetAddrs#1: assert arg1 == amsg.Addrs
-//@   at call Send#1: assert arg0 == r.sender
-//@   at call Send#1: assert arg2.Cid == amsg.Cid
-//@   at call Send#1: assert str(arg2.OrigPeer) == orig
+//@   at call String: assert arg0 == amsg.PeerID
+//@   at call String: after ghost orig := str(result)
+//@   at call SetAddrs: assert arg1 == amsg.Addrs
+//@   at call Send: assert arg0 == r.sender
+//@   at call Send: assert arg2.Cid == amsg.Cid
+//@   at call Send: assert str(arg2.OrigPeer) == orig
 //@   ensures-local count("call:Send") == 1 && count("call:SetAddrs") == 1 && before("call:SetAddrs", "call:Send")
 
 // ---------------------------------------------------------------------------
@@ -139,10 +139,10 @@ package announce
 // The duplicate filter remembers 64 CIDs.
 //@ func NewReceiver
 //@   property C09 C16
-//@   at call newStringLRU#1: assert arg0 == 64
+//@   at call newStringLRU: assert arg0 == 64
 // ASSUMED about the option mechanism of p2psender.New (options are applied through function values):
 // a sender created WithTopic(t), t != nil, publishes to a topic.
-//@   at call p2psender.New#1: after assume result1 == nil ==> result0 != nil && result0.topic != nil
+//@   at call p2psender.New: after assume result1 == nil ==> result0 != nil && result0.topic != nil
 //@   ensures result1 == nil ==> recvOK(result0) && !held(result0.announceMutex) && !result0.closed
 //@   ensures result1 == nil ==> (result0.cancelWatch != nil ==> result0.watchDone != nil && result0.topicSub != nil) && (result0.cancelPubsub != nil ==> result0.topic != nil)
 //@   ensures result1 == nil ==> isfresh(result0) && isfresh(result0.done) && isfresh(result0.outChan)
@@ -156,10 +156,10 @@ package announce
 //@   requires recvOK(r) && !held(r.announceMutex) && ctx != nil && r.topicSub != nil && r.topic != nil && r.watchDone != nil && !closed(r.watchDone)
 //@   ghost src := ""
 //@   ghost orig := ""
-//@   at call IDFromBytes#1: after ghost src := str(result0)
-//@   at call Decode#1: after ghost orig := str(result0)
-//@   at call handleAnnounce#1: assert arg2.Cid == m.Cid && arg3 == false
-//@   at call handleAnnounce#1: assert ite(str(m.OrigPeer) != str(""), str(arg2.PeerID) == orig && src != str(r.hostID), str(arg2.PeerID) == src)
+//@   at call IDFromBytes: after ghost src := str(result0)
+//@   at call Decode: after ghost orig := str(result0)
+//@   at call handleAnnounce: assert arg2.Cid == m.Cid && arg3 == false
+//@   at call handleAnnounce: assert ite(str(m.OrigPeer) != str(""), str(arg2.PeerID) == orig && src != str(r.hostID), str(arg2.PeerID) == src)
 //@   loop 1: invariant recvOK(r) && !held(r.announceMutex) && r.topicSub != nil && r.topic != nil && r.watchDone != nil && !closed(r.watchDone)
 // every pubsub message is handed on exactly once unless there is a reason not to: the subscription had
 // to be restarted, the sender ID / the message / its addresses / its original-peer field do not decode,
@@ -169,11 +169,11 @@ package announce
 //@   ghost addrErr := false
 //@   ghost decErr := false
 //@   ghost origSet := false
-//@   at call IDFromBytes#1: after ghost idErr := result1 != nil
-//@   at call UnmarshalCBOR#1: after ghost cborErr := result != nil
-//@   at call UnmarshalCBOR#1: after ghost origSet := str(m.OrigPeer) != str("")
-//@   at call GetAddrs#1: after ghost addrErr := result1 != nil
-//@   at call Decode#1: after ghost decErr := result1 != nil
+//@   at call IDFromBytes: after ghost idErr := result1 != nil
+//@   at call UnmarshalCBOR: after ghost cborErr := result != nil
+//@   at call UnmarshalCBOR: after ghost origSet := str(m.OrigPeer) != str("")
+//@   at call GetAddrs: after ghost addrErr := result1 != nil
+//@   at call Decode: after ghost decErr := result1 != nil
 //@   loop 1: iteration ensures itercount("call:handleAnnounce") <= 1
 //@   loop 1: iteration ensures itercount("call:handleAnnounce") == 0 ==> itercount("call:IDFromBytes") == 0 || idErr || (itercount("call:UnmarshalCBOR") == 1 && cborErr) || (itercount("call:GetAddrs") == 1 && addrErr) || (itercount("call:Decode") == 1 && decErr) || (itercount("call:UnmarshalCBOR") == 1 && !cborErr && origSet && src == str(r.hostID))
 
